@@ -5,7 +5,8 @@
    function, push iterators in continuation-passing style, the visits map threaded as state).  [all_fixed] is the
    repaired code, [unfixed] the code before the three "fix:" patches; the refutations keep the defects checkable. *)
 Require Import Gengo.Base.Bytes Gengo.Model.ResultsOf.
-Require Import Gengo.Proofs.ResultsOf Gengo.Proofs.ResultsOfSound Gengo.Proofs.ResultsOfLiteral Gengo.Proofs.ResultsOfMain.
+Require Import Gengo.Proofs.ResultsOf Gengo.Proofs.ResultsOfSound Gengo.Proofs.ResultsOfLiteral Gengo.Proofs.ResultsOfMain
+  Gengo.Proofs.ResultsOfWitness.
 
 (* Termination: for EVERY program (any call graph: self recursion, mutual recursion, closures; well-typed or not),
    every entry kind and every declared result tuple, fuel = number of (function, result index) pairs + 1 is enough:
@@ -67,6 +68,21 @@ Theorem C14_no_panic :
 Proof. exact no_panic_fixed. Qed.
 Print Assumptions C14_no_panic.
 
+(* HOW TO READ C14_sound.  [wt_b os p] ("p is a well-typed program") checks every return statement and every
+   assignment with [wt_expr], and at every LEAF expression (EVal / EFuncLit: anything that is not a call) that is
+   [good_alt os T a], which contains [sound_b a T] — the very predicate of the conclusion, for the type T of the
+   place the leaf is written to.  So leaf soundness is a HYPOTHESIS on the typed program: "the expression written
+   at a return / assignment position is a constant or assignable to the type of that position".  Go's type checker
+   guarantees it for every program that compiles (and the harness recomputes it from go/types on every case); the
+   theorem does not prove it.  What the theorem proves is that ResultsOf's PROPAGATION preserves it: an alternative
+   found at a leaf of some other function, and carried to result i of the function asked about through any chain
+   of calls (single- and multi-result, recursive or not, cut by the visits map), assignments to locals and named
+   results, bare returns and function-literal arguments, is still a constant or assignable to the DECLARED type of
+   result i — i.e. the resolver never follows an edge along which the types stop being assignable (it follows only
+   results printed "error"/"any"/"interface{}", matches assignments by object, indexes multi-result calls by
+   position).  C14_example_sound_witness below proves [wt_b] for a concrete program with all these features and
+   instantiates the theorem; C14_example_leaf_hypothesis_needed shows that with an ill-typed leaf (rejected by
+   [wt_b]) the conclusion fails, so the hypothesis is not idle. *)
 Theorem C14_sound :
   forall (os : otys) (p : prog) (fuel : nat) (en : entry) (sigres : list rdecl) ls n,
     wt_b os p = true -> entry_ok p en sigres = true ->
@@ -129,3 +145,40 @@ Proof. eexists. eexists. split; [reflexivity|]. split; vm_compute; reflexivity. 
 
 Example C14_example_wt : wt_b [(1%N, TNil); (2%N, TBool)] prog_lit = true /\ wt_b [] prog_rec = true.
 Proof. vm_compute. split; reflexivity. Qed.
+
+(* ---- non-vacuity of C14_sound / C14_no_panic / C14_total on a program with structure ----
+   Proofs/ResultsOfWitness.v, [w_prog]: nine functions of one package —
+     Leaf (returns &MyErr{}), Mid -> Leaf, Top -> Mid                      (call chain)
+     Entry:  err := Top(); return err                                      (assignment through a local)
+     Pair:   return 1, Entry()          Multi:  return 0, nil / return Pair()   (multi-result call as the whole tuple)
+     Even <-> Odd                                                           (mutually recursive pair)
+     All:    n, err := Multi(); return 0, err; e2 := Even(n); return n, e2  (multi-result call assigned to two locals)
+   ResultsOf(All) reaches Leaf at call depth 7.  [wt_b] is a boolean function: it is proved by computation. *)
+Example C14_example_wt_witness :
+  wt_b w_otys w_prog = true /\ entry_ok w_prog (EnBody 8) [w_int; w_err] = true /\
+  results_of all_fixed w_prog w_fuel (EnBody 8) [w_int; w_err] = Ok (w_results, 2).
+Proof. exact (conj w_wt (conj w_entry_ok w_run)). Qed.
+
+(* C14_sound instantiated on it (hypotheses discharged by the Example above) *)
+Example C14_example_sound_witness :
+  forall i l r a,
+    nth_error w_results i = Some l -> nth_error [w_int; w_err] i = Some r -> In a l ->
+    a_const a = true \/ assignable (a_ty a) (r_ty r) = true.
+Proof. exact (C14_sound w_otys w_prog w_fuel (EnBody 8) [w_int; w_err] w_results 2 w_wt w_entry_ok w_run). Qed.
+
+Example C14_example_no_panic_total_witness :
+  (forall fuel, results_of all_fixed w_prog fuel (EnBody 8) [w_int; w_err] <> Panic) /\
+  (exists ls n, results_of all_fixed w_prog w_fuel (EnBody 8) [w_int; w_err] = Ok (ls, n)).
+Proof.
+  exact (conj (fun fuel => C14_no_panic w_otys w_prog fuel (EnBody 8) [w_int; w_err] w_wt w_entry_ok)
+              (C14_total w_otys w_prog (EnBody 8) [w_int; w_err] w_wt w_entry_ok)).
+Qed.
+
+(* the same program with  func Leaf() error { return s }  (s a string): [wt_b] rejects it, and the resolver carries
+   the string up to All's error result — the leaf hypothesis is what C14_sound needs, and nothing more *)
+Example C14_example_leaf_hypothesis_needed :
+  wt_b w_otys w_prog_bad = false /\
+  exists ls l, results_of all_fixed w_prog_bad w_fuel (EnBody 8) [w_int; w_err] = Ok (ls, 2) /\
+               nth_error ls 1 = Some l /\ In w_bad_leaf l /\
+               a_const w_bad_leaf = false /\ assignable (a_ty w_bad_leaf) TError = false.
+Proof. exact (conj w_bad_rejected w_bad_propagates). Qed.
